@@ -5,7 +5,7 @@
 //   F <name> <r>              ScriptMaster::GetProgramScript(name, recompile=<r>)   (file variant)
 //   R <name>                  FindScript(name): absent | failed | run it (ExecuteThread) and print what it printed
 //   E <name>                  ScriptMaster::ExecuteThread(name) (file variant + run): the path of exec/thread "x.scr"
-//   T <name>                  like R but the output of the run is not printed (arbitrary accepted programs)
+//   T <name>                  like R but the script is not run: absent | failed | loaded (it has a non-empty program)
 //   K <skeleton tokens>       compile the loop skeleton (W( D( S( T( | I( ) b c f) and print the outcome class and,
 //                             for every break/continue in source order, the construct that owns its jump target
 // out: `m <obs>` per op.  Outcome classes of C/F:
@@ -254,9 +254,14 @@ int main()
                 if (!scr) std::printf("m %s absent\n", c.c_str());
                 else if (!scr->IsCompileSuccess()) std::printf("m %s failed\n", c.c_str());
                 else {
-                    std::string rr = runScript(e, scr, c == "R");
-                    if (c == "T") rr = "ran";
-                    std::printf("m %s %s\n", c.c_str(), rr.c_str());
+                    if (c == "T") {
+                        // an arbitrary accepted text is not executed here (C02/C03/C04 execute programs): only that a program exists
+                        const bool has = scr->GetProgBuffer() != nullptr && scr->GetProgLength() > 0;
+                        std::printf("m T %s\n", has ? "loaded" : "loaded-without-program");
+                    } else {
+                        const std::string rr = runScript(e, scr, true);
+                        std::printf("m %s %s\n", c.c_str(), rr.c_str());
+                    }
                 }
             } else if (c == "E") {
                 // the path taken by script commands (exec/thread "other.scr"): ExecuteThread by NAME
